@@ -140,7 +140,7 @@ def run(ctx):
     else:
         st = R.standard(ctx, [R.Plan("qr", "S_q1", emit_mod=15, max_inst=2, max_pw=1, stray=2),
                               R.Plan("qr3", "S_t1d", emit_mod=6, max_inst=3, max_pw=1, stray=2),
-                              R.Plan("two", "S_t1d", emit_mod=40, ids="Ids2", max_inst=1, max_pw=1, stray=2)], OWN,
+                              R.Plan("two", "S_t1d", emit_mod=40, ids="Ids2", max_inst=1, max_pw=0, pw_on=False, stray=1)], OWN,
                         need=("replies", "accept_D", "accept_R"))
         n = differential(ctx, "dq", "S_t1d", nb=3000, per=2, max_inst=2, max_pw=1, emit_mod=2, stray=1)
         n += differential(ctx, "dq1", "S_q1", nb=4000, per=2, max_inst=2, max_pw=1, emit_mod=40, stray=1)
